@@ -17,6 +17,18 @@
 (*    Stats.tla reads them - that is the specification of these two dimensions.    *)
 (*    The only thing derived from them is `tol` (clipping cases): the tolerance to *)
 (*    which mean and deviation are known on that lattice (Stats!SClipKeepT);       *)
+(*  - `pr` (round 3): the PRINTING options of the call - entry point (get_stats /  *)
+(*    print_stats), doprint, nsigma_print / nsigma, verbose, silent.  One of the   *)
+(*    NPr = 48 combinations is attached to every wm / cl / sc case by a hash, the  *)
+(*    family "rp" runs a few data sets under EVERY combination.  No expectation    *)
+(*    reads the field: printing does not change a returned value;                  *)
+(*  - family "sc" (round 3): SCALE.  The case is a small pattern (x, w) plus a     *)
+(*    replication factor K (up to several thousand; 2^22.. in the thorough tier)   *)
+(*    and a layout; the arrays handed to the code are the K replicas.  ScaleLaw    *)
+(*    (Stats!SScaleLaw on every pattern, K <= ScLawK) is the theorem by which the  *)
+(*    pattern decides the large case.  Weights additionally come in float16        *)
+(*    ("f2": a cumulative weight accumulated in the weights' own type stops        *)
+(*    growing at 2048 units);                                                      *)
 (*  - the three mechanisms are run as ACTIONS, one per code step:                  *)
 (*      MedStart/MedStep/MedDone   the cumulative-weight loop of wmedian           *)
 (*      ClipStep/ClipFinish        the clipping iteration of sigma_clip (a real    *)
@@ -30,7 +42,7 @@
 (*    on the lattice (overflow is a TLC error).                                    *)
 EXTENDS Stats, Json
 
-CONSTANTS Kinds,        \* subset of {"wm", "wm2", "cl", "ip", "cv", "rp"}: families enumerated in this run
+CONSTANTS Kinds,        \* subset of {"wm", "wm2", "cl", "ip", "cv", "rp", "sc"}: families enumerated in this run
           RepFull,      \* family "rp": TRUE - full product (rep x rep x lattice) for wm / cl, FALSE - the design rows
           MinLen, MaxLen, Vals, Wts, MaxW,      \* wm : 1-d data/weights, total weight 1..MaxW
           MuNone,                                \* wm : TRUE - also enumerate supplied means (DefsAgree about them)
@@ -39,6 +51,10 @@ CONSTANTS Kinds,        \* subset of {"wm", "wm2", "cl", "ip", "cv", "rp"}: fami
           TabX, TabV, TabMax,                    \* ip : nodes from TabX (2..TabMax of them), values from TabV
           CovMaxN, CovDiag, CovOffN, CovShift,   \* cv : diag from CovDiag, off-diagonal from (0..CovOffN) - CovShift
           DefMaxW,                               \* DefsAgree is evaluated for total weight <= DefMaxW
+          ScMaxLen, ScVals, ScWts,               \* sc : patterns of length 1..ScMaxLen
+          ScLawK,                                \* sc : ScaleLaw is evaluated for K in 1..ScLawK
+          ScKExtra,                              \* sc : further replication factors for the patterns run under every factor
+          ScHuge,                                \* sc : TRUE - also the two float32-weight cases of 2^24.. points
           MedVariantGE,                          \* FALSE: the loop test of the code (sum > W/2); TRUE: a deviating
                                                  \* variant (sum >= W/2) used to show that MedRefines can fail
           DoExport
@@ -192,6 +208,23 @@ TolBig == <<1, 128>>
 TolF4  == <<1, 2048>>
 LatTol(l, rx) == IF l.big THEN TolBig ELSE IF rx = "f4" THEN TolF4 ELSE <<0, 1>>
 
+\* ---- printing / verbosity options ------------------------------------------------------------
+\* entry point x doprint: get_stats(doprint=False), get_stats(doprint=True), print_stats (always prints);
+\* nsp = nsigma_print (get_stats) / nsigma (print_stats): the multiple of the error shown in the printed table;
+\* verbose, silent: keywords of sigma_clip (progress lines on stdout, the "everything clipped" message on stderr)
+NspTable == << <<1, 1>>, <<2, 1>>, <<3, 1>>, <<1, 2>> >>
+NPr      == 48
+PrOf(i)  == LET j == i % NPr
+            IN [entry |-> IF j % 3 = 2 THEN "print_stats" ELSE "get_stats", doprint |-> j % 3 # 0,
+                nsp |-> NspTable[((j \div 3) % 4) + 1], verbose |-> (j \div 12) % 2 = 1, silent |-> (j \div 24) % 2 = 0]
+PrAll    == {PrOf(i) : i \in 0..(NPr - 1)}
+
+\* ---- scale: replication factors, layouts, weight representations --------------------------------
+\* (the array has K * Len(x) elements: 1 .. 18000, at, just below and just above 2^10, 2^11, 2^12, 3 * 2^10, ...)
+ScKSeq   == <<1, 2, 3, 341, 683, 1023, 1024, 1025, 1366, 1500, 2047, 2048, 2049, 2731, 4096, 4097, 6000>>      \* NRep of them
+LaySeq   == <<"tile", "block", "shuffle">>
+ScWReps  == VRange(RepSeq) \cup {"f2"}          \* float16 holds every weight 0..32 of every lattice exactly (adapter: verified)
+
 \* orthogonal array of strength 2 with 5 factors of NRep levels and NRep^2 rows: row (a, b) = (b, a, a+b, a+2b, a+3b)
 DesignRows == 0..(NRep * NRep - 1)
 RowFacs(h) == LET g == h % (NRep * NRep)  a == g \div NRep  b == g % NRep
@@ -221,15 +254,24 @@ IpQueries == LET lo == 2 * VSetMin(TabX) - 4
 HSeq(s)  == VSumF(LAMBDA i : (s[i] + 1) * (2 * i + 1), DOMAIN s)
 HCols(x) == VSumF(LAMBDA j : HSeq(x[j]) * (j + 2), DOMAIN x)
 WithWm(x, w) == LET rl == RLData(RowFacs(3 * HCols(x) + 7 * HCols(w) + 5 * Len(w)), MaxOfCols(x))
-                IN [op |-> "wm", x |-> x, w |-> w, rep |-> rl.rep, lat |-> rl.lat]
-MkCl(x, w, hasw, ns, nit, f) ==
+                IN [op |-> "wm", x |-> x, w |-> w, rep |-> rl.rep, lat |-> rl.lat, pr |-> PrOf(5 * HCols(x) + 11 * HCols(w) + Len(w))]
+MkCl(x, w, hasw, ns, nit, f, pr) ==
     LET rl == RLData(f, VSeqMax(x))
     IN [op |-> "cl", x |-> x, w |-> w, hasw |-> hasw, nsn |-> NSigTable[ns][1], nsd |-> NSigTable[ns][2], niter |-> nit,
-        rep |-> rl.rep, lat |-> rl.lat, tol |-> rl.tol]
-WithCl(x, w, hasw, ns, nit) == MkCl(x, w, hasw, ns, nit, RowFacs(3 * HSeq(x) + 7 * HSeq(w) + 13 * ns + (IF hasw THEN 5 ELSE 0)))
+        rep |-> rl.rep, lat |-> rl.lat, tol |-> rl.tol, pr |-> pr]
+WithCl(x, w, hasw, ns, nit) == MkCl(x, w, hasw, ns, nit, RowFacs(3 * HSeq(x) + 7 * HSeq(w) + 13 * ns + (IF hasw THEN 5 ELSE 0)),
+                                    PrOf(5 * HSeq(x) + 11 * HSeq(w) + 7 * ns + (IF hasw THEN 3 ELSE 0)))
 MkIp(xs, vs, f) == LET rl == RLTable(f, VSeqMax(xs), VSeqMax(vs))
                    IN [op |-> "ip", xs |-> xs, vs |-> vs, us |-> IpQueries, rep |-> rl.rep, lat |-> rl.lat, vlat |-> rl.vlat]
 MkCv(m, f)      == LET rl == RLCov(f, m) IN [op |-> "cv", m |-> m, rep |-> rl.rep, lat |-> rl.lat]
+\* scale cases: small lattices only (every partial sum of the large arrays is then exact in binary64, so that the
+\* tolerance "to rounding" of the small cases still applies); rw = the weight representation (any of ScWReps)
+ScLatFor(i, mx) == LET l == LatFor(i, mx) IN IF l.big THEN LatSeq[1] ELSE l
+MkSc(x, w, K, lay, f, rw, pr) ==
+    LET l  == ScLatFor(f[3] + 1, VSeqMax(x))
+        rx == RepFix(RepSeq[f[1] + 1], RepOKData(RepSeq[f[1] + 1], l), l.fit)
+    IN [op |-> "sc", x |-> <<x>>, w |-> <<w>>, K |-> K, lay |-> lay, pr |-> pr,
+        rep |-> [x |-> rx, w |-> IF rw = "f2" THEN rw ELSE RepFix(rw, RepOKWts(rw, l), l.wfit)], lat |-> l.name]
 
 \* ---- wmom / wmedian / get_stats, 1-d -------------------------------------------------
 ChooseX1 ==
@@ -335,14 +377,61 @@ RpCvData == { << <<4, -2>>, <<-2, 9>> >>, << <<1, 1, 0>>, <<1, 4, 2>>, <<0, 2, 9
 ChooseRpWm ==
     /\ phase = "start" /\ "rp" \in Kinds
     /\ \E d \in RpWmData : \E f \in RpRows3 :
-          LET rl == RLData(f, MaxOfCols(d[1])) IN c' = [op |-> "wm", x |-> d[1], w |-> d[2], rep |-> rl.rep, lat |-> rl.lat]
+          LET rl == RLData(f, MaxOfCols(d[1]))
+          IN c' = [op |-> "wm", x |-> d[1], w |-> d[2], rep |-> rl.rep, lat |-> rl.lat, pr |-> PrOf(7 * f[1] + 5 * f[2] + f[3])]
     /\ phase' = "wm2" /\ UNCHANGED st
 ChooseRpCl ==
     /\ phase = "start" /\ "rp" \in Kinds
     /\ \E d \in RpClData : \E f \in RpRows3 :
-          /\ c' = MkCl(d[1], d[2], d[3], d[4], d[5], f)
+          /\ c' = MkCl(d[1], d[2], d[3], d[4], d[5], f, PrOf(7 * f[1] + 5 * f[2] + f[3]))
           /\ st' = [S |-> DOMAIN d[1], k |-> 0, done |-> FALSE]
     /\ phase' = "cl"
+\* ... and under every combination of the printing options (representation / lattice: design row i)
+ChooseRpPrWm ==
+    /\ phase = "start" /\ "rp" \in Kinds
+    /\ \E d \in RpWmData : \E i \in 0..(NPr - 1) :
+          LET rl == RLData(RowFacs(6 * i + 1), MaxOfCols(d[1]))
+          IN c' = [op |-> "wm", x |-> d[1], w |-> d[2], rep |-> rl.rep, lat |-> rl.lat, pr |-> PrOf(i)]
+    /\ phase' = "wm2" /\ UNCHANGED st
+ChooseRpPrCl ==
+    /\ phase = "start" /\ "rp" \in Kinds
+    /\ \E d \in RpClData : \E i \in 0..(NPr - 1) :
+          /\ c' = MkCl(d[1], d[2], d[3], d[4], d[5], RowFacs(6 * i + 1), PrOf(i))
+          /\ st' = [S |-> DOMAIN d[1], k |-> 0, done |-> FALSE]
+    /\ phase' = "cl"
+
+\* ---- family "sc": scale ----------------------------------------------------------------------------
+\* every pattern, with (representation, lattice, replication factor, layout) from a design row picked by its hash;
+\* weights in float16 for about half of the rows
+ChooseScX ==
+    /\ phase = "start" /\ "sc" \in Kinds
+    /\ \E n \in 1..ScMaxLen : \E x \in [1..n -> ScVals] : c' = [op |-> "sc", x |-> <<x>>]
+    /\ phase' = "sc_x" /\ UNCHANGED st
+ChooseScW ==
+    /\ phase = "sc_x"
+    /\ \E w \in [1..Len(c.x[1]) -> ScWts] :
+          /\ SSumW(w, DOMAIN w) \in 1..MaxW
+          /\ LET x == c.x[1]
+                 f == RowFacs(3 * HSeq(x) + 7 * HSeq(w) + 11 * Len(x))
+             IN c' = MkSc(x, w, ScKSeq[f[4] + 1], LaySeq[(f[5] % 3) + 1], f,
+                          IF (f[5] \div 3) % 2 = 1 THEN "f2" ELSE RepSeq[f[2] + 1], PrOf(5 * HSeq(x) + 11 * HSeq(w)))
+    /\ phase' = "sc" /\ UNCHANGED st
+\* two patterns under EVERY replication factor x EVERY weight representation (data representation, lattice, layout vary along)
+ScRpData == { << <<0, 1, 4>>, <<1, 1, 1>> >>, << <<3, 0, 4, 1>>, <<1, 2, 8, 1>> >> }
+ChooseScRp ==
+    /\ phase = "start" /\ "sc" \in Kinds
+    /\ \E d \in ScRpData : \E K \in VRange(ScKSeq) \cup ScKExtra : \E rw \in ScWReps :
+          LET i == CHOOSE j \in 1..NRep : (rw = "f2" /\ j = 1) \/ RepSeq[j] = rw
+              f == RowFacs(K + 5 * i + Len(d[1]))
+          IN c' = MkSc(d[1], d[2], K, LaySeq[((K + i) % 3) + 1], f, rw, PrOf(K + i))
+    /\ phase' = "sc" /\ UNCHANGED st
+\* 2^24.. points with float32 weights (a float32 accumulator stops growing at 2^24 units): data in the narrowest type
+ChooseScHuge ==
+    /\ phase = "start" /\ "sc" \in Kinds /\ ScHuge
+    /\ \E d \in { << <<0, 1, 3>>, <<1, 1, 1>>, 8388608 >>, << <<0, 1, 3, 4>>, <<1, 1, 1, 1>>, 4194305 >> } :
+          c' = [op |-> "sc", x |-> <<d[1]>>, w |-> <<d[2]>>, K |-> d[3], lay |-> "tile", pr |-> PrOf(0),
+                rep |-> [x |-> "u1", w |-> "f4"], lat |-> "unit"]
+    /\ phase' = "sc" /\ UNCHANGED st
 ChooseRpIp ==
     /\ phase = "start" /\ "rp" \in Kinds
     /\ \E d \in RpIpData : \E f \in RpRows : c' = MkIp(d[1], d[2], f)
@@ -354,7 +443,8 @@ ChooseRpCv ==
 
 NextExport == ChooseX1 \/ ChooseW1 \/ ChooseX2 \/ ChooseW2 \/ ChooseClipX \/ ChooseClipW
               \/ ChooseNodes \/ ChooseTabV \/ ChooseCovDiag \/ ChooseCovOff
-              \/ ChooseRpWm \/ ChooseRpCl \/ ChooseRpIp \/ ChooseRpCv
+              \/ ChooseRpWm \/ ChooseRpCl \/ ChooseRpIp \/ ChooseRpCv \/ ChooseRpPrWm \/ ChooseRpPrCl
+              \/ ChooseScX \/ ChooseScW \/ ChooseScRp \/ ChooseScHuge
 Next == NextExport \/ ChooseMu \/ MedStart \/ MedStep \/ MedDone \/ ClipStep \/ ClipFinish
 
 Spec == Init /\ [][Next]_vars
@@ -380,6 +470,17 @@ MomentsSane == phase = "wm" =>
        /\ v[1] >= 0 /\ (v[1] = 0 <=> Cardinality({x[i] : i \in pos}) = 1)
        /\ SWMedian(x, w) \in {x[i] : i \in P}
        /\ SMinOf(x, pos) <= SWMedian(x, w) /\ SWMedian(x, w) <= SMaxOf(x, pos)
+
+\* SCALE: the statistics of K replicas (tiled / in blocks) of every pattern follow from the pattern's - the theorem by
+\* which a large case is judged on its pattern (K <= ScLawK here; the law does not depend on K)
+ScaleLaw == phase = "sc" => \A k \in 1..ScLawK : SScaleLaw(c.x[1], c.w[1], k, VRange(MuTable))
+\* every combination of the printing options is a distinct record; every option value occurs
+PrintCovers == phase = "start" =>
+    /\ Cardinality(PrAll) = NPr
+    /\ \A e \in {"get_stats", "print_stats"} : \A b \in BOOLEAN : \A k \in DOMAIN NspTable :
+          /\ \E p \in PrAll : p.entry = e /\ p.verbose = b /\ p.nsp = NspTable[k]
+          /\ \E p \in PrAll : p.doprint = b /\ p.silent = b /\ p.nsp = NspTable[k]
+    /\ Len(ScKSeq) = NRep /\ \A p \in PrAll : p.entry = "print_stats" => p.doprint
 
 \* the loop of wmedian stays inside the array and ends on the property-level median
 MedSafe    == phase \in {"med", "med_done"} => st.k \in 1..Len(c.x[1])
@@ -426,9 +527,11 @@ DesignCovers == phase = "start" =>
     /\ \A i \in 1..NLat : LET l == LatSeq[i] IN l.qfit \subseteq l.xfit /\ (l.fit \cup l.xfit \cup l.wfit \cup l.cfit) \subseteq IntReps
     /\ LatSeq[1].kmax >= 60 /\ LatSeq[1].ckmax >= 25
 \* what a case carries is admissible: the representation can hold the lattice, the tolerance is the lattice's
-RepAdmissible == phase \in {"wm", "wm2", "cl", "ip", "cv"} =>
+RepAdmissible == phase \in {"wm", "wm2", "cl", "ip", "cv", "sc"} =>
     LET l == CHOOSE ll \in VRange(LatSeq) : ll.name = c.lat
-    IN CASE c.op \in {"wm", "cl"} -> /\ RepOKData(c.rep.x, l) /\ RepOKWts(c.rep.w, l) /\ (c.op = "cl" => c.tol = LatTol(l, c.rep.x))
+    IN CASE c.op = "sc" -> /\ RepOKData(c.rep.x, l) /\ (c.rep.w = "f2" \/ RepOKWts(c.rep.w, l)) /\ ~l.big /\ c.pr \in PrAll
+                           /\ MaxOfCols(c.x) <= l.kmax /\ c.K >= 1 /\ c.lay \in VRange(LaySeq) /\ c.rep.w \in ScWReps
+         [] c.op \in {"wm", "cl"} -> /\ c.pr \in PrAll /\ RepOKData(c.rep.x, l) /\ RepOKWts(c.rep.w, l) /\ (c.op = "cl" => c.tol = LatTol(l, c.rep.x))
                                       /\ (IF c.op = "wm" THEN MaxOfCols(c.x) ELSE VSeqMax(c.x)) <= l.kmax
          [] c.op = "ip" -> LET lv == CHOOSE ll \in VRange(LatSeq) : ll.name = c.vlat
                            IN /\ RepOKData(c.rep.v, lv) /\ RepOKNodes(c.rep.x, l) /\ RepOKQuery(c.rep.u, l)
@@ -449,10 +552,11 @@ CovSane == phase = "cv" =>
                           /\ (i = j => SCor2(c.m, i, j) = <<1, 1>>)
 
 \* ---- export -------------------------------------------------------------------------------
-Export == /\ (DoExport /\ phase \in {"wm", "wm2", "cl", "ip", "cv"}) => PrintT(<<"CASE", ToJson(c)>>)
+Export == /\ (DoExport /\ phase \in {"wm", "wm2", "cl", "ip", "cv", "sc"}) => PrintT(<<"CASE", ToJson(c)>>)
           /\ (DoExport /\ phase = "start") =>
                 PrintT(<<"OPTS", ToJson([mus |-> MuTable, nsigs |-> NSigTable, reps |-> RepSeq, lats |-> LatSeq,
                                          tolbig |-> TolBig, tolf4 |-> TolF4,
+                                         prs |-> [i \in 1..NPr |-> PrOf(i - 1)], screps |-> ScWReps, lays |-> LaySeq, scks |-> ScKSeq,
                                          \* which (representation, lattice) pairs are admissible, and the tolerance of each
                                          \* (lattice, float32 data?) - used by the adapter for its seeded larger cases
                                          okdata  |-> UNION {{<<r, l.name>> : r \in {q \in VRange(RepSeq) : RepOKData(q, l)}} : l \in VRange(LatSeq)},
